@@ -1186,7 +1186,11 @@ func abs(x float64) float64 {
 }
 
 func roundup(x float64) float64 {
-	return math.Round(x*10) / 10
+	// The exact value is a fraction whose denominator divides 4200, so it is
+	// either precisely half-way between two tenths or at least 1e-5 away from
+	// it. Adding a small epsilon (as the first.org reference calculator does)
+	// makes exact x.x5 values round up despite float64 noise.
+	return math.Round((x+1e-6)*10) / 10
 }
 
 // Nomenclature returns the CVSS v4.0 configuration used when scoring.
